@@ -8,4 +8,10 @@ require (
 	pgregory.net/rapid v1.3.0
 )
 
+require (
+	github.com/matoous/go-nanoid v1.5.0 // indirect
+	golang.org/x/mod v0.20.0 // indirect
+	golang.org/x/sync v0.8.0 // indirect
+)
+
 replace github.com/reedom/convergen => /repo
